@@ -11,6 +11,7 @@ base = json.load(open(sys.argv[2])) if len(sys.argv) > 2 and sys.argv[2] else {"
 here = os.path.dirname(os.path.dirname(os.path.abspath(__file__)))
 SHIMMED = [
     "stores/basestore/base_store.go", "stores/basestore/base_index.go",
+    "stores/replicator/replication_info.go",
     "stores/eventlogstore/index.go", "stores/kvstore/index.go", "stores/documentstore/index.go",
 ]
 os.makedirs(out, exist_ok=True)
